@@ -221,5 +221,63 @@ def r14_5(ctx):
     (ctx.ok(construct, hreset.loc(), nontrivial=False) if ok else ctx.bad(construct, "reset no longer goes through kconfiglib._restore_default", hreset.loc()))
 
 
+def r14_6(ctx):
+    """R14.6 (a) the `defaults` channel reads has_active_default_value(), whose flag is refreshed only by evaluating the
+    values: every get_sym_default_value_dict(config) in run_server follows a kconfgen.get_json_values(config) taken after
+    the request was handled; (b) a request is applied in the order load, set, reset and only then save - what is saved is
+    what the reply describes; (c) a replacing load clears a choice's pick (Choice.unset_value clears it whenever there is a
+    pick), so the client state after `load` equals a fresh server's."""
+    repo = ctx.repo
+    f = repo.func(f"{KS}:run_server")
+    ctx.analysed(f.qual)
+    loop = [n for n in ast.walk(f.node) if isinstance(n, ast.While)][0]
+    handle = [n for n in ast.walk(loop) if isinstance(n, ast.Call) and ast.unparse(n.func) == "handle_request"][0]
+    hst = repo.enclosing_stmt(handle)
+
+    def events(node):
+        if isinstance(node, (ast.If, ast.For, ast.While, ast.Try, ast.With)):
+            return []
+        out = []
+        for x in ast.walk(node):
+            if isinstance(x, ast.Call) and ast.unparse(x.func) == "kconfgen.get_json_values":
+                out.append("evaluated")
+        return out
+
+    def kills(node):
+        return ["evaluated"] if node is hst else []
+
+    fl = Flow(f.node, events=events, kills=kills, track_guards=False, body=loop.body).run()
+    fl0 = Flow(f.node, events=events, track_guards=False).run()
+    n = 0
+    for c in [x for x in ast.walk(f.node) if isinstance(x, ast.Call) and ast.unparse(x.func) == "get_sym_default_value_dict"]:
+        n += 1
+        inside = any(c is y for y in ast.walk(loop))
+        st = repo.enclosing_stmt(c)
+        evs = (fl if inside else fl0).events_at(st) or set()
+        construct = f"run_server/defaults snapshot #{n} taken after the values were evaluated"
+        (ctx.ok(construct, f.loc(c)) if "evaluated" in evs else
+         ctx.bad(construct, "get_sym_default_value_dict(config) runs before get_json_values(config) has re-evaluated the symbols (after the request): the "
+                 "`defaults` diff is computed from the flags of the previous evaluation and the client is never told the corrected value", f.loc(c)))
+    if n < 3:
+        raise AnalysisError(f"only {n} defaults snapshots found")
+    h = repo.func(f"{KS}:handle_request")
+    ctx.analysed(h.qual)
+    order = []
+    for s in h.node.body:
+        if isinstance(s, ast.If) and isinstance(s.test, ast.Compare) and isinstance(s.test.left, ast.Constant) and ast.unparse(s.test.comparators[0]) == "req":
+            order.append(s.test.left.value)
+    order = [k for k in order if k in ("load", "set", "reset", "save")]
+    construct = "handle_request/parts applied in the order load, set, reset, save"
+    (ctx.ok(construct, h.loc(), order=order) if order == ["load", "set", "reset", "save"] else
+     ctx.bad(construct, f"order is {order}: a request that combines them saves a configuration other than the one its reply describes", h.loc()))
+    from . import c05
+    before = len(ctx.instances)
+    c05.r05_6(ctx)
+    keep = [i for i in ctx.instances[before:] if i.construct.startswith("Choice.unset_value/")]
+    dropped = {i.construct for i in ctx.instances[before:]} - {i.construct for i in keep}
+    ctx.instances[before:] = keep
+    ctx.findings[:] = [x for x in ctx.findings if not (x.rule == ctx._rule and x.construct in dropped)]
+
+
 def rules():
-    return [("R14.1", r14_1, 9), ("R14.2", r14_2, 5), ("R14.3", r14_3, 3), ("R14.4", r14_4, 20), ("R14.5", r14_5, 10)]
+    return [("R14.1", r14_1, 9), ("R14.2", r14_2, 5), ("R14.3", r14_3, 3), ("R14.4", r14_4, 20), ("R14.5", r14_5, 10), ("R14.6", r14_6, 5)]
